@@ -85,3 +85,15 @@ Definition disp_mis_y (cs : list disp_case) : list N :=
   flat_map (fun '(id, f, over, del, ms, impl, _) => if disp_eqb (y_dispatch f over del ms) impl then [] else [id]) cs.
 Definition disp_mis_g (cs : list disp_case) : list N :=
   flat_map (fun '(id, _, over, del, ms, _, ref) => if disp_eqb (g_dispatch over del ms) ref then [] else [id]) cs.
+
+Definition outcome_eqb (a b : outcome) : bool :=
+  match a, b with OOk, OOk | OZero, OZero => true | _, _ => false end.
+
+(** id, history, outcome of each native call (impl), outcome of each in-script call of the history *)
+Definition sess_case := (N * list step * list outcome * list outcome)%type.
+
+Definition sess_mis_y (cs : list sess_case) : list N :=
+  flat_map (fun '(id, h, impl, _) => if list_eqb outcome_eqb (y_session true h) impl then [] else [id]) cs.
+(** inside the script every call gives the function's results *)
+Definition sess_mis_g (cs : list sess_case) : list N :=
+  flat_map (fun '(id, _, _, ref) => if forallb (outcome_eqb OOk) ref then [] else [id]) cs.
